@@ -83,22 +83,33 @@ func RuleV(c *Ctx) {
 	handoff("ipa", "IPAConfig", "Commit", func(f *ssa.Function) bool { return core.IsMethod(f, "/banderwagon", "MSMPrecomp", "MSM") }, "MSMPrecomp.MSM", [][2]interface{}{{"polynomial", 1}})
 
 	// V2 / V4
-	type foldSpec struct {
-		name       string
-		mulName    string
-		resultMade bool
-	}
-	for _, fs := range []foldSpec{{"InnerProd", "Mul", false}, {"foldScalars", "Mul", true}, {"foldPoints", "ScalarMul", true}} {
-		fn := c.P.Fn("ipa", "", fs.name)
+	for _, name := range []string{"InnerProd", "foldScalars", "foldPoints"} {
+		fn := c.P.Fn("ipa", "", name)
 		if fn == nil {
-			c.Unresolved("V2", "ipa."+fs.name)
+			c.Unresolved("V2", "ipa."+name)
 			continue
 		}
 		c.Saw(core.FnName(fn))
 		a, b := paramNamed(fn, "a"), paramNamed(fn, "b")
 		if a == nil || b == nil {
-			c.Unresolved("V2", "ipa."+fs.name+" parameters a, b")
+			c.Unresolved("V2", "ipa."+name+" parameters a, b")
 			continue
+		}
+		// the vectors: a, b, and a result made with len(a) / len(b) entries
+		vecName := func(v ssa.Value) string {
+			switch {
+			case v == ssa.Value(a):
+				return "a"
+			case v == ssa.Value(b):
+				return "b"
+			}
+			if mk, isMk := v.(*ssa.MakeSlice); isMk {
+				if lx, isL := core.IsLenOf(mk.Len); isL && (lx == ssa.Value(a) || lx == ssa.Value(b)) {
+					return "result"
+				}
+				return "result?"
+			}
+			return ""
 		}
 		cls := countedLoops(fn)
 		ok := len(cls) == 1
@@ -111,40 +122,34 @@ func RuleV(c *Ctx) {
 			cl = cls[0]
 			z, isZ := core.ConstInt(cl.init)
 			x, isLen := core.IsLenOf(cl.bound)
-			if !isZ || z != 0 || cl.step != 1 || cl.op != token.LSS || !isLen || (x != ssa.Value(a) && x != ssa.Value(b)) {
+			if !isZ || z != 0 || cl.step != 1 || cl.op != token.LSS || !isLen || vecName(x) == "" || vecName(x) == "result?" {
 				ok = false
 				why = append(why, "the loop does not run i = 0; i < len(a); i++ over the whole vectors")
 			}
-			// every element access is at the induction variable
 			nIdx := 0
 			core.AllInstrs(fn, func(i ssa.Instruction) {
 				ia, isIA := i.(*ssa.IndexAddr)
 				if !isIA {
 					return
 				}
-				base := ia.X
-				isVec := base == ssa.Value(a) || base == ssa.Value(b)
-				if mk, isMk := base.(*ssa.MakeSlice); isMk && fs.resultMade {
-					isVec = true
-					if lx, isL := core.IsLenOf(mk.Len); !isL || (lx != ssa.Value(a) && lx != ssa.Value(b)) {
-						ok = false
-						why = append(why, "the result is not made with len(a) entries")
-					}
-				}
-				if !isVec {
+				vn := vecName(ia.X)
+				if vn == "" {
 					return
 				}
-				nIdx++
-				if core.StripConv(ia.Index) != ssa.Value(cl.phi) {
+				if vn == "result?" {
 					ok = false
-					why = append(why, fmt.Sprintf("%s is indexed by something other than the loop variable at %s", core.PathOf(base), c.P.Pos(ia.Pos())))
+					why = append(why, "the result is not made with len(a) entries")
+				}
+				nIdx++
+				if core.StripConv(ia.Index) != cl.phi {
+					ok = false
+					why = append(why, fmt.Sprintf("%s is indexed by something other than the loop variable at %s", vn, c.P.Pos(ia.Pos())))
 				}
 			})
 			if nIdx < 2 {
 				ok = false
 				why = append(why, "the operands are not read element by element")
 			}
-			// the length guard len(a) != len(b) dominates the loop
 			guard := false
 			for _, cd := range core.Conds(fn) {
 				xa, okA := core.IsLenOf(cd.X)
@@ -159,86 +164,140 @@ func RuleV(c *Ctx) {
 			}
 		}
 		facts++
-		c.Check(ok, "V2", fs.name+":full-traversal", fn.Pos(), fs.name+": "+strings.Join(uniqStrings(why), "; ")+" — some terms would not take part, or be paired with the wrong index", "i in [0,len(a)), all operands and the result at [i], lengths guarded equal")
+		c.Check(ok, "V2", name+":full-traversal", fn.Pos(), name+": "+strings.Join(uniqStrings(why), "; ")+" — some terms would not take part, or be paired with the wrong index", "i in [0,len(a)), all operands and the result at [i], lengths guarded equal")
 
-		// V4: dataflow of one iteration
+		// V4: what one iteration computes, as a term over a[i], b[i], x and the value carried into the iteration
 		if cl == nil {
 			continue
 		}
-		elemOf := func(v ssa.Value) string {
-			if ia, isIA := v.(*ssa.IndexAddr); isIA && core.StripConv(ia.Index) == ssa.Value(cl.phi) {
-				switch {
-				case ia.X == ssa.Value(a):
-					return "a[i]"
-				case ia.X == ssa.Value(b):
-					return "b[i]"
-				}
-				if _, isMk := ia.X.(*ssa.MakeSlice); isMk {
-					return "result[i]"
-				}
+		facts++
+		key4 := name + ":formula"
+		var body []*ssa.BasicBlock
+		for _, blk := range fn.Blocks {
+			if cl.loop.Blocks[blk] && blk != cl.loop.Header {
+				body = append(body, blk)
 			}
-			if al, isAl := v.(*ssa.Alloc); isAl {
-				if p := core.ParamSpill(al); p != nil {
+		}
+		straight := true
+		for _, blk := range body {
+			if _, isIf := blk.Instrs[len(blk.Instrs)-1].(*ssa.If); isIf {
+				straight = false
+			}
+		}
+		if !straight {
+			c.Und("V4", key4, fn.Pos(), name+": the loop body branches; the per-iteration formula is not evaluated")
+			continue
+		}
+		alias := map[ssa.Value]ssa.Value{}
+		var cellKey func(v ssa.Value, d int) string
+		cellKey = func(v ssa.Value, d int) string {
+			if d > 6 {
+				return "?"
+			}
+			if al, ok := alias[v]; ok {
+				return cellKey(al, d+1)
+			}
+			switch x := v.(type) {
+			case *ssa.IndexAddr:
+				if vn := vecName(x.X); vn != "" && core.StripConv(x.Index) == cl.phi {
+					return vn + "[i]"
+				}
+				return "?index"
+			case *ssa.Alloc:
+				if p := core.ParamSpill(x); p != nil {
 					return p.Name()
 				}
-				return "tmp:" + al.Comment
+				if cl.loop.Blocks[x.Block()] {
+					return fmt.Sprintf("tmp:%s@%p", x.Comment, x) // fresh in every iteration
+				}
+				return fmt.Sprintf("carried:%s@%p", x.Comment, x)
 			}
-			return "?"
+			return "?" + v.Name()
 		}
-		var muls, adds []*ssa.Call
-		core.AllInstrs(fn, func(i ssa.Instruction) {
-			call, isCall := i.(*ssa.Call)
-			if !isCall || !cl.loop.Blocks[call.Block()] {
-				return
+		state := map[string]string{}
+		leaf := func(k string) string {
+			switch {
+			case k == "a[i]" || k == "b[i]" || k == "x":
+				return k
+			case k == "result[i]" || strings.HasPrefix(k, "tmp:"):
+				return "0" // freshly made / declared: the zero value
+			case strings.HasPrefix(k, "carried:"):
+				return "acc"
 			}
-			f := core.Callee(call.Common())
-			if f == nil || f.Signature.Recv() == nil {
-				return
+			return "?" + k
+		}
+		get := func(v ssa.Value) string {
+			k := cellKey(v, 0)
+			if t, ok := state[k]; ok {
+				return t
 			}
-			switch f.Name() {
-			case fs.mulName:
-				muls = append(muls, call)
-			case "Add":
-				adds = append(adds, call)
+			return leaf(k)
+		}
+		comm := func(op, x, y string) string {
+			if y < x {
+				x, y = y, x
 			}
-		})
-		ok4 := len(muls) == 1 && len(adds) == 1
-		var why4 []string
-		if !ok4 {
-			why4 = append(why4, fmt.Sprintf("%d %s and %d Add calls per iteration, expected one each", len(muls), fs.mulName, len(adds)))
+			return op + "(" + x + "," + y + ")"
+		}
+		var accKey string
+		undec := ""
+		for _, blk := range body {
+			for _, ins := range blk.Instrs {
+				// plain copies: result[i] = tmp
+				if st, isSt := ins.(*ssa.Store); isSt {
+					if u, isLoad := st.Val.(*ssa.UnOp); isLoad && u.Op == token.MUL {
+						if k := cellKey(st.Addr, 0); !strings.HasPrefix(k, "?") {
+							state[k] = get(u.X)
+							if strings.HasPrefix(k, "carried:") {
+								accKey = k
+							}
+						}
+					}
+					continue
+				}
+				call, isCall := ins.(*ssa.Call)
+				if !isCall {
+					continue
+				}
+				f := core.Callee(call.Common())
+				if f == nil || f.Signature.Recv() == nil || len(call.Call.Args) == 0 {
+					continue
+				}
+				dst := cellKey(call.Call.Args[0], 0)
+				var t string
+				switch {
+				case (f.Name() == "Mul" || f.Name() == "ScalarMul") && len(call.Call.Args) == 3:
+					t = comm("mul", get(call.Call.Args[1]), get(call.Call.Args[2]))
+				case f.Name() == "Add" && len(call.Call.Args) == 3:
+					t = comm("add", get(call.Call.Args[1]), get(call.Call.Args[2]))
+				case f.Name() == "Set" && len(call.Call.Args) == 2:
+					t = get(call.Call.Args[1])
+				default:
+					if gnarkObservers[f.Name()] {
+						continue
+					}
+					undec = "operation " + f.Name() + " in the loop body"
+					continue
+				}
+				state[dst] = t
+				alias[call] = call.Call.Args[0]
+				if strings.HasPrefix(dst, "carried:") {
+					accKey = dst
+				}
+			}
+		}
+		var got, want string
+		if name == "InnerProd" {
+			got, want = state[accKey], "add(acc,mul(a[i],b[i]))"
 		} else {
-			m, ad := muls[0], adds[0]
-			mo := []string{elemOf(m.Call.Args[1]), elemOf(m.Call.Args[2])}
-			ao := []string{elemOf(ad.Call.Args[1]), elemOf(ad.Call.Args[2])}
-			has := func(xs []string, s string) bool { return xs[0] == s || xs[1] == s }
-			prod := elemOf(m.Call.Args[0])
-			if fs.name == "InnerProd" {
-				if !(has(mo, "a[i]") && has(mo, "b[i]")) {
-					ok4 = false
-					why4 = append(why4, fmt.Sprintf("the product is %s*%s, not a[i]*b[i]", mo[0], mo[1]))
-				}
-				acc := elemOf(ad.Call.Args[0])
-				if !(has(ao, prod) && has(ao, acc)) || !strings.HasPrefix(prod, "tmp:") {
-					ok4 = false
-					why4 = append(why4, "the product is not added to the running sum")
-				}
-			} else {
-				if !(has(mo, "b[i]") && has(mo, "x")) {
-					ok4 = false
-					why4 = append(why4, fmt.Sprintf("the challenge product is %s*%s, not x*b[i]", mo[0], mo[1]))
-				}
-				if !(has(ao, prod) && has(ao, "a[i]")) || elemOf(ad.Call.Args[0]) != "result[i]" || !strings.HasPrefix(prod, "tmp:") {
-					ok4 = false
-					why4 = append(why4, fmt.Sprintf("result[i] is not a[i] + (x*b[i]): %s = %s + %s", elemOf(ad.Call.Args[0]), ao[0], ao[1]))
-				}
-			}
-			if !core.ReachableAvoiding(fn, m, loopHeaderCut(cl), ad) {
-				ok4 = false
-				why4 = append(why4, "the product is not computed before the sum in the same iteration")
-			}
+			got, want = state["result[i]"], "add(a[i],mul(b[i],x))"
 		}
-		facts++
-		c.Check(ok4, "V4", fs.name+":formula", fn.Pos(), fs.name+": "+strings.Join(why4, "; "), "per iteration: one product of the i-th entries, one sum")
+		switch {
+		case undec != "":
+			c.Und("V4", key4, fn.Pos(), name+": cannot evaluate the loop body: "+undec)
+		default:
+			c.Check(got == want, "V4", key4, fn.Pos(), fmt.Sprintf("%s: one iteration computes %q, the specification is %q", name, got, want), "per iteration: "+want)
+		}
 	}
 
 	// V3
